@@ -39,7 +39,15 @@ type C17Mode struct {
 	Cl   bool   `json:"cl"`
 }
 
+// C17Alt: status and "may have a body" under one reading of Flush (got through / no-op).
+type C17Alt struct {
+	Flush       bool `json:"flush"`
+	Status      int  `json:"status"`
+	BodyAllowed bool `json:"body_allowed"`
+}
+
 type C17Handler struct {
+	Alts        []C17Alt  `json:"alts"`
 	Started     bool      `json:"started"`
 	Req         C17Req    `json:"req"`
 	Ops         []C17Ev   `json:"ops"`
@@ -65,6 +73,10 @@ var (
 		"yes":     {"gzip", "gzip, deflate", "deflate, gzip", "gzip;q=1.0, identity; q=0.5", "br;q=0.9, gzip;q=0.8", "deflate,gzip;q=0.5"},
 		"no":      {"", "deflate", "identity", "br", "compress, deflate"},
 		"refused": {"gzip;q=0", "gzip; q=0", "deflate, gzip;q=0", "gzip;q=0.0", "br, gzip;q=0.000"},
+		// RFC 7231 5.3.4: an explicit entry for gzip wins over "*"; "*;q=0" refuses everything not listed
+		"refusedwild": {"*, gzip;q=0", "gzip;q=0, *", "*;q=1.0, gzip;q=0", "*;q=0", "identity, *;q=0", "br;q=1, *;q=0", "gzip;q=0, *;q=0.5"},
+		// gzip is acceptable, but only through the wildcard or in an unusual spelling: compressing is permitted, not required
+		"wild": {"*", "*;q=0.5", "br, *", "deflate;q=0.5, *;q=0.1", "GZIP", "Gzip;q=0.8", "x-gzip"},
 	}
 	c17CT = map[string][]string{
 		"match":   {"text/plain", "text/html; charset=utf-8", "application/json", "image/svg+xml", "application/javascript", "text/css"},
@@ -192,10 +204,15 @@ func (p *C17Plan) Serve(w http.ResponseWriter, before func(i int)) {
 		if before != nil {
 			before(i)
 		}
-		if op.Ev == "w" || op.Code >= 200 {
-			setHeaders() // late: just before the first final op
+		if op.Ev == "w" || op.Ev == "fl" || op.Code >= 200 {
+			setHeaders() // late: just before the first op that can commit the header
 		}
 		switch op.Ev {
+		case "fl":
+			// the way streaming handlers flush: only if the writer they were given offers it
+			if f, ok := w.(http.Flusher); ok {
+				f.Flush()
+			}
 		case "wh":
 			w.WriteHeader(op.Code)
 		case "w":
@@ -215,6 +232,9 @@ func (p *C17Plan) Serve(w http.ResponseWriter, before func(i int)) {
 func (p *C17Plan) NeedsReference() bool {
 	n := 0
 	for _, op := range p.H.Ops {
+		if op.Ev == "fl" {
+			return true
+		}
 		if op.Ev == "wh" {
 			n++
 			if op.Code < 200 {
@@ -237,12 +257,23 @@ func (p *C17Plan) Judge(status int, hdr http.Header, raw []byte, readErr error) 
 		faults = append(faults, C17Fault{clause, fmt.Sprintf(format, a...)})
 	}
 	h := p.H
-	want := h.Status
-	if p.RefStatus != 0 {
-		want = p.RefStatus
+	// the expected status (and whether a body may follow): the readings of Flush the specification
+	// permits; without Flush in the script they coincide
+	alts := h.Alts
+	if len(alts) == 0 {
+		alts = []C17Alt{{Status: h.Status, BodyAllowed: h.BodyAllowed}}
 	}
-	if status != want {
-		add("status", "status %d, the inner handler's status is %d", status, want)
+	bodyAllowed := alts[0].BodyAllowed
+	okStatus := false
+	var wants []string
+	for _, a := range alts {
+		wants = append(wants, strconv.Itoa(a.Status))
+		if a.Status == status && !okStatus {
+			okStatus, bodyAllowed = true, a.BodyAllowed
+		}
+	}
+	if !okStatus {
+		add("status", "status %d, the inner handler's status is %s", status, strings.Join(wants, " or "))
 	}
 	ce := hdr.Get("Content-Encoding")
 	allowed := func(m string) *C17Mode {
@@ -273,7 +304,7 @@ func (p *C17Plan) Judge(status int, hdr http.Header, raw []byte, readErr error) 
 	if got := hdr.Get("X-C17-Echo"); got != p.EchoVal {
 		add("other-header", "header X-C17-Echo %q, the inner handler set %q", got, p.EchoVal)
 	}
-	if !h.BodyAllowed {
+	if !bodyAllowed {
 		return faults, mode // HEAD / 204 / 304: status and labels only
 	}
 	if p.CT != "" && hdr.Get("Content-Type") != p.CT {
@@ -328,14 +359,17 @@ func c17FirstDiff(a, b []byte) int {
 
 // Features is the feature record of a failing handler.
 func (p *C17Plan) Features(sub, clause string) map[string]any {
-	info := false
+	info, fl := false, false
 	for _, op := range p.H.Ops {
 		if op.Ev == "wh" && op.Code < 200 {
 			info = true
 		}
+		if op.Ev == "fl" {
+			fl = true
+		}
 	}
 	return map[string]any{"sub": sub, "clause": clause, "ae": p.H.Req.Ae, "ct": p.H.Req.Ct, "encoded": p.H.Req.Enc != "",
-		"sse": p.H.Req.Acc == "sse", "method": p.H.Req.Method, "informational": info, "late_headers": p.H.Req.Late}
+		"sse": p.H.Req.Acc == "sse", "method": p.H.Req.Method, "informational": info, "late_headers": p.H.Req.Late, "flush": fl}
 }
 
 // Describe renders the concrete request/response of the plan.
@@ -345,6 +379,8 @@ func (p *C17Plan) Describe() string {
 	for _, op := range p.H.Ops {
 		if op.Ev == "wh" {
 			ops = append(ops, fmt.Sprintf("WriteHeader(%d)", op.Code))
+		} else if op.Ev == "fl" {
+			ops = append(ops, "Flush()")
 		} else {
 			ops = append(ops, fmt.Sprintf("Write(%d bytes %s)", len(p.Chunks[k]), op.Chunk))
 			k++
